@@ -222,7 +222,19 @@ func (g *gen) tree() []rscp.Message {
 
 // a Go value whose type is none of the table types
 func (g *gen) alienValue() interface{} {
-	switch g.pick(8) {
+	switch g.pick(12) {
+	case 8:
+		s := "pointer to a string"
+		return &s
+	case 9:
+		b := []byte{1, 2}
+		return &b
+	case 10:
+		m := []rscp.Message{}
+		return &m
+	case 11:
+		var s *string
+		return s
 	case 0:
 		return 5 // int
 	case 1:
